@@ -104,6 +104,12 @@ type Dot struct {
 
 func (Dot) ShapeName() string { return "dot" }
 
+// Addr is a byte array that is a Shape through its pointer (registered as Addr with an object code and - drawn per case -
+// its own JSON key: the {type, <key>: hex} object form of byte arrays, which iota.go uses for addresses and identifiers).
+type Addr [20]byte
+
+func (*Addr) ShapeName() string { return "addr" }
+
 // PayA is a Payload.
 type PayA struct {
 	V uint64 `serix:""`
